@@ -4,6 +4,7 @@ R13.1 measure and the four weights; which Delta receives which weight; axes and 
 R13.2 deltaToTmunu: T30/T33 equal the direct moment expression of p^mu p^nu boosted to the wall frame
 R13.3 linearity: no weight depends on deltaF
 R13.4 boundary points dropped consistently; container arithmetic maps each Delta to itself
+R13.5 cached momenta and Jacobians consumed by the moments stay mutually consistent under rescaling (typestate rule shared with C17)
 """
 from __future__ import annotations
 
@@ -91,12 +92,44 @@ def r13_1(chk: Check) -> None:
         got_axes.get("pz", ("", ""))[1] == "self.grid.pzValues" and got_axes.get("pp", ("", ""))[1] == "self.grid.ppValues"
     chk.ob("R13.1", fi.where(), "pz and dpz/drz (Jacobian element 1) live on axis 2, pp and dpp/drp (Jacobian element 2) on axis 3 of the (particle, z, pz, pp) array", ok,
            str(got_axes), key="broadcast-axes")
-    chk.floor("R13.1", 11)
+    chk.floor("R13.1", 13)
     # R13.3 linearity
     dF = ex.sym("deltaF")
     bad = [k for k in DELTAS if isinstance(kw.get(k), sp.Basic) and kw[k].args[1].has(dF)]
     chk.ob("R13.3", fi.where(), "no integration weight depends on deltaF (moments are linear in the deviation)", not bad, str(bad), key="linear")
     chk.floor("R13.3", 1)
+
+
+def cardinal_before_weights(chk: Check, rule: str) -> None:
+    """Point-wise weights that vary along z (masses, energies, field gradients) are multiplied onto the coefficient
+    array inside Polynomial.integrate, which only converts the *integrated* axes: every other polynomial axis must
+    already hold grid values (Cardinal basis) -- otherwise the result depends on the basis chosen for deltaF."""
+    S = chk.src
+    for fname in ("getDeltas", "checkLinearization"):
+        fi = S.func(f"{BS}.{fname}")
+        chk.touch(fi.name)
+        polys = {}
+        for st in own_nodes(fi.node):
+            if isinstance(st, ast.Assign) and isinstance(st.value, ast.Call) and n(st.value.func) == "Polynomial" \
+                    and isinstance(st.targets[0], ast.Name) and len(st.value.args) >= 3:
+                polys[st.targets[0].id] = st.value
+        for name, ctor in polys.items():
+            bases = ctor.args[2]
+            declared = [n(e) for e in bases.elts] if isinstance(bases, ast.Tuple) else [n(bases)]
+            uses_solver_basis = any("self.basis" in d for d in declared)
+            integ = [c for c in calls_in(fi.node, "integrate") if n(c.func) == f"{name}.integrate"]
+            if not integ or not uses_solver_basis:
+                continue
+            conv = [c for c in calls_in(fi.node, "changeBasis") if n(c.func) == f"{name}.changeBasis" and c.lineno < integ[0].lineno]
+            ok = False
+            detail = "no changeBasis before integrate"
+            if conv:
+                a0 = conv[-1].args[0]
+                tup = [e.value if isinstance(e, ast.Constant) else n(e) for e in a0.elts] if isinstance(a0, ast.Tuple) else [n(a0)]
+                ok = all(t in ("Array", "Cardinal") for t in tup) and tup.count("Cardinal") >= 3
+                detail = str(tup)
+            chk.ob(rule, fi.where(integ[0]), f"{fname}: `{name}` is converted to the Cardinal basis on all polynomial axes before z-dependent "
+                   "weights are multiplied in (basis independence of the derived quantities)", ok, detail, key=f"cardinal|{fname}|{name}")
 
 
 def r13_2(chk: Check) -> None:
@@ -232,5 +265,11 @@ def r13_4(chk: Check) -> None:
 
 def rules(chk: Check) -> None:
     r13_1(chk)
+    cardinal_before_weights(chk, "R13.1")
     r13_2(chk)
     r13_4(chk)
+    # the momenta and Jacobians read by getDeltas are cached grid state: they must be mutually consistent
+    # for every history of rescaling calls (shared typestate rule of C17)
+    from .c17 import cache_coherence
+    cache_coherence(chk, "R13.5")
+    chk.floor("R13.5", 8)
